@@ -567,3 +567,91 @@ func Exhaustive(maxNT, maxT, maxRules, maxLen int, f func(*Spec) bool) {
 		}
 	}
 }
+
+// Unusable: family F5. Takes a usable base grammar and injects one defect.
+// kind: "undefined" (a symbol that is neither a token nor defined by a rule),
+// "norules" (a %type-declared nonterminal without rules), "unproductive"
+// (self-recursive without base case), "mutual" (two nonterminals that only
+// derive each other), "unreachable" (unproductive but not referenced),
+// "start" (the start symbol itself is unproductive), "nullable-mix"
+// (unproductive nonterminal next to nullable ones).
+var UnusableKinds = []string{"undefined", "norules", "unproductive", "mutual", "unreachable", "start", "nullable-mix", "deep"}
+
+func MakeUnusable(base *Spec, kind string, r *rng.R) *Spec {
+	s := base.Clone()
+	s.Family = "F5:" + kind
+	if len(s.Fields) == 0 {
+		s.Fields = []Field{{"fa", "int"}}
+	}
+	newNT := func(name, tag string) int {
+		s.NTs = append(s.NTs, NT{Name: name, Tag: tag})
+		return len(s.NTs) - 1
+	}
+	someTerm := func() Sym { return Sym{I: r.Intn(len(s.Terms))} }
+	// reference x from a random position of a random existing rule (early or late in the file)
+	refFrom := func(x int) {
+		ri := r.Intn(len(s.Rules))
+		if r.Chance(1, 3) {
+			ri = 0
+		} else if r.Chance(1, 2) {
+			ri = len(s.Rules) - 1
+		}
+		rl := &s.Rules[ri]
+		pos := r.Intn(len(rl.R) + 1)
+		nr := append([]Sym(nil), rl.R[:pos]...)
+		nr = append(nr, Sym{NT: true, I: x})
+		nr = append(nr, rl.R[pos:]...)
+		rl.R = nr
+		rl.Act = nil
+	}
+	switch kind {
+	case "undefined":
+		u := newNT("undef_sym", "")
+		refFrom(u)
+	case "norules":
+		u := newNT("typed_norules", s.Fields[0].Name)
+		if r.Chance(1, 2) {
+			refFrom(u)
+		}
+	case "unproductive":
+		u := newNT("loop_u", "")
+		s.Rules = append(s.Rules, Rule{L: u, R: []Sym{someTerm(), {NT: true, I: u}}, Prec: -1})
+		if r.Chance(1, 2) {
+			s.Rules = append(s.Rules, Rule{L: u, R: []Sym{{NT: true, I: u}, someTerm()}, Prec: -1})
+		}
+		refFrom(u)
+	case "mutual":
+		u := newNT("mut_u", "")
+		v := newNT("mut_v", "")
+		s.Rules = append(s.Rules, Rule{L: u, R: []Sym{{NT: true, I: v}, someTerm()}, Prec: -1},
+			Rule{L: v, R: []Sym{someTerm(), {NT: true, I: u}}, Prec: -1})
+		refFrom(u)
+	case "unreachable":
+		u := newNT("island_u", "")
+		s.Rules = append(s.Rules, Rule{L: u, R: []Sym{{NT: true, I: u}, someTerm()}, Prec: -1})
+	case "start":
+		u := newNT("bad_start", "")
+		s.Rules = append(s.Rules, Rule{L: u, R: []Sym{{NT: true, I: s.Start}, {NT: true, I: u}}, Prec: -1})
+		s.Start = u
+		s.StartDecl = true
+	case "nullable-mix":
+		// E: | E x ; U: E U  (U needs itself although E is nullable)
+		e := newNT("maybe_e", "")
+		u := newNT("loop_n", "")
+		s.Rules = append(s.Rules, Rule{L: e, Prec: -1}, Rule{L: e, R: []Sym{{NT: true, I: e}, someTerm()}, Prec: -1},
+			Rule{L: u, R: []Sym{{NT: true, I: e}, {NT: true, I: u}}, Prec: -1})
+		if r.Chance(1, 2) {
+			s.Rules = append(s.Rules, Rule{L: u, R: []Sym{{NT: true, I: e}, {NT: true, I: e}, {NT: true, I: u}, {NT: true, I: e}}, Prec: -1})
+		}
+		refFrom(u)
+	case "deep":
+		// chain a: b ; b: c ; c: c x  referenced from the base
+		a := newNT("chain_a", "")
+		b := newNT("chain_b", "")
+		c := newNT("chain_c", "")
+		s.Rules = append(s.Rules, Rule{L: a, R: []Sym{{NT: true, I: b}}, Prec: -1}, Rule{L: b, R: []Sym{someTerm(), {NT: true, I: c}}, Prec: -1},
+			Rule{L: c, R: []Sym{{NT: true, I: c}, someTerm()}, Prec: -1})
+		refFrom(a)
+	}
+	return s
+}
